@@ -271,7 +271,7 @@ func (e *Eng) noteLocal(fr *Frame, in *ssa.Alloc, p *PtrV) {
 		return
 	}
 	for _, pl := range e.privLocals {
-		if pl.alloc == in {
+		if pl.alloc != nil && pl.alloc == in {
 			return
 		}
 	}
